@@ -5,7 +5,9 @@ mod enc;
 mod c09;
 mod c10;
 mod c13;
+mod c03;
 mod c04;
+mod dieasm;
 mod c06;
 mod linemodel;
 mod c07;
@@ -16,7 +18,7 @@ use crate::core::{Prop, Tier};
 use std::path::Path;
 
 pub fn props() -> Vec<&'static dyn Prop> {
-    vec![&c04::C04, &c06::C06, &c07::C07, &c09::C09, &c10::C10, &c13::C13]
+    vec![&c03::C03, &c04::C04, &c06::C06, &c07::C07, &c09::C09, &c10::C10, &c13::C13]
 }
 
 pub fn find(id: &str) -> Option<&'static dyn Prop> {
